@@ -54,8 +54,8 @@ def run(rep):
             if "error" in j:
                 broken.append({"obligation": "harness:conc-" + phase, "detail": str(j["error"])})
         rep.coverage.update({
-            "evaluations": total_calls, "distinct_nontrivial": 86,
-            "rule": "86-statement workload reaching every formerly inventoried write site (INSERT ... SELECT ... FORMAT, WITH ... INSERT, EXPLAIN ... FORMAT/SETTINGS, CREATE VIEW ... AS SELECT ... FORMAT, ordinary statements); "
+            "evaluations": total_calls, "distinct_nontrivial": sum(1 for l in open(conccommon.WORKLOAD) if l.strip()),
+            "rule": "workload of ~280 statements reaching every formerly inventoried write site (INSERT ... SELECT ... FORMAT, WITH ... INSERT, EXPLAIN ... FORMAT/SETTINGS, CREATE VIEW ... AS SELECT ... FORMAT, ordinary statements); "
                     "phase B: N goroutines x R rounds on freshly parsed trees, phase C: all goroutines share one tree per statement; go build -race; every result compared with the sequential baseline",
             "samples": [l.strip() for l in open(conccommon.WORKLOAD).readlines()[:4]],
             "inventory": {k: (len(v) if isinstance(v, list) else v) for k, v in report.items() if k != "stats"},
